@@ -63,6 +63,7 @@ theorem fieldScoreLaws : @ScoreLaws K (fieldScoreOps K) := by
   · intro a; exact one_mul a
   · intro a b c h hc; exact div_le_div_of_nonneg_right h (le_of_lt hc)
   · intro a h; simpa using h
+  · intro a b c h; exact sub_le_sub_left h c
 
 end
 
